@@ -525,6 +525,23 @@ func (cs *c13Case) runFollow(conn *c13Conn, client *ch.Client, ver int, base int
 		if !bytes.Equal(wrote, want.Buf) {
 			fail("the query after the handshake is not encoded at the negotiated revision %d: wrote %s want %s", ver, c13Short(wrote), c13Short(want.Buf))
 		}
+		// and by a reader that owes nothing to the library's coders: what a peer at revision ver reads
+		if got, why := c13ParseQueryAndBlank(wrote, ver); why != "" {
+			fail("a peer reading at the negotiated revision %d cannot read the query: %s (wrote %s)", ver, why, c13Short(wrote))
+		} else {
+			switch {
+			case got.id != q.QueryID || got.body != q.Body:
+				fail("a peer at revision %d reads query id %q body %q, the caller gave %q %q", ver, got.id, got.body, q.QueryID, q.Body)
+			case got.stage != 2 || got.comp != 0:
+				fail("a peer at revision %d reads stage %d compression %d", ver, got.stage, got.comp)
+			case ver >= 54429 && len(got.settings) != len(q.Settings):
+				fail("a peer at revision %d reads %d settings, the caller gave %d", ver, len(got.settings), len(q.Settings))
+			case len(got.params) != len(q.Parameters):
+				fail("a peer at revision %d reads %d parameters, the caller gave %d", ver, len(got.params), len(q.Parameters))
+			case ver >= 54420 && got.hasTrace != (f.span != nil && ver >= 54442):
+				fail("a peer at revision %d reads trace context present=%v", ver, got.hasTrace)
+			}
+		}
 		// what was decoded: the fields revision ver defines, the others blank
 		var wantP []proto.Progress
 		for _, p := range f.progress {
